@@ -522,8 +522,8 @@ func TestC04(t *testing.T) {
 		Level: "exploration",
 		Rule: "modules biased to order-sensitive shapes (function-local types / type parameters sharing a package-level name, up to 16 types per package, " +
 			"several packages with intra-module imports) x recording generators that print what gengo hands them (type order, doc lines, sorted tags, a 7-key map " +
-			"literal, 6 std imports, per-instance counter) and the real runtimedoc/defaulter generators x All on/off x global tags; from the same initial tree: 3 " +
-			"in-process runs, 0-1 fresh-process run, 1-2 entrypoint permutations must give byte-identical generated files, gengo.sum and call sequences; then a " +
+			"literal, 6 std imports, for a third of them two competing packages of one name, per-instance counter) and the real runtimedoc/defaulter generators x All on/off x global tags; from the same initial tree: 3 " +
+			"in-process runs, 0-1 fresh-process run, a run of the same tree restored at another absolute path, 1-2 entrypoint permutations must give byte-identical generated files, gengo.sum and call sequences; then a " +
 			"run on the result must change no generated file and (All) a third run nothing at all; non-trivial = shadowing pair | >=2 entrypoints | map literal; " +
 			"distinct by JSON encoding",
 		Assumptions: []string{"map iteration orders are sampled by repetition, not enumerated"},
